@@ -149,3 +149,52 @@ def geodesic(x):
                 if d[i][m] + d[m][j] < d[i][j]:
                     d[i][j] = d[i][m] + d[m][j]
     return [d[i][j] for i in range(n) for j in range(i + 1, n)]
+
+
+# ------------------------------------------------------------------ pooling / noise ceilings of rank-based measures
+def pooled_ranks(vecs):
+    """the pooled RDM of a rank-based measure: every RDM is ranked on its own (tie-averaged ranks
+    among its non-missing entries), the ranks are averaged over RDMs entry by entry; an entry that
+    is missing in an RDM is missing in the pool"""
+    rows = [ranks(v, 'average') for v in vecs]
+    out = []
+    for k in range(len(rows[0])):
+        col = [r[k] for r in rows]
+        if any(math.isnan(c) for c in col):
+            out.append(float('nan'))
+        else:
+            out.append(sum(col) / len(col))
+    return out
+
+
+def pair_positions(n_cond, conds):
+    """positions in the vector form of the pairs among the conditions `conds` (ascending)"""
+    pos = {}
+    k = 0
+    for i in range(n_cond):
+        for j in range(i + 1, n_cond):
+            pos[(i, j)] = k
+            k += 1
+    conds = sorted(conds)
+    return [pos[(a, b)] for x, a in enumerate(conds) for b in conds[x + 1:]]
+
+
+def noise_ceiling(vecs, sim, positions=None):
+    """(lower, upper): lower = mean over RDMs of sim(pool of the OTHER RDMs, this RDM), upper =
+    mean over RDMs of sim(pool of ALL RDMs, this RDM); `sim(a, b)` returns a float or None
+    (undefined) - then the ceiling is undefined (None).  `positions`: compare only these entries
+    (pooling always uses the complete vectors)."""
+    vecs = [[float(a) for a in v] for v in vecs]
+    if positions is None:
+        positions = list(range(len(vecs[0])))
+    pool_all = pooled_ranks(vecs)
+    lower, upper = [], []
+    for i, v in enumerate(vecs):
+        pool_rest = pooled_ranks(vecs[:i] + vecs[i + 1:])
+        lo = sim([pool_rest[p] for p in positions], [v[p] for p in positions])
+        up = sim([pool_all[p] for p in positions], [v[p] for p in positions])
+        if lo is None or up is None:
+            return None
+        lower.append(lo)
+        upper.append(up)
+    return sum(lower) / len(lower), sum(upper) / len(upper)
